@@ -789,6 +789,40 @@ fn gen_misc(prop: &str, n: usize, rng: &mut StdRng, sink: &mut Sink) {
                 sink.begin(&json!({"prop": prop, "fen": b.as_fen()}));
                 sink.emit(&misc::cap_event(b));
             }
+            // the longest texts (dense boards, five-digit counters) and, through the validator, OVERFULL armies:
+            // more than sixteen men of one colour must not come out of validation as a Board (what is accepted
+            // goes on to the generators with their fixed-capacity list)
+            for i in 0..12 {
+                let b = if i < posgen::DENSE_FENS.len() { owlchess::Board::from_fen(posgen::DENSE_FENS[i]).unwrap() } else { posgen::dense(rng) };
+                sink.begin(&json!({"prop": prop, "fen": b.as_fen()}));
+                sink.emit(&misc::cap_event(&b));
+            }
+            for f in ["kBQQQQQQ/BR5Q/Q6Q/Q6Q/Q6Q/Q6Q/Q6Q/QQQQQQQK w - - 0 1", "1QQQQQQ1/Q6Q/Q6Q/Q6Q/Q3Q2Q/2Q4Q/BR5Q/k1KQ1QQ1 w - - 0 1",
+                      "1qqqqqq1/q6q/q6q/q6q/q3q2q/2q4q/br5q/K1kq1qq1 b - - 0 1"] {
+                let raw = owlchess::RawBoard::from_fen(f).unwrap();
+                sink.begin(&json!({"prop": prop, "rawfen": f}));
+                if let Ok(Ok(b)) = std::panic::catch_unwind(|| owlchess::Board::try_from(raw)) {
+                    sink.emit(&misc::cap_event(&b));
+                }
+            }
+            for _ in 0..30 {
+                // a random overfull army of queens and rooks around two kings
+                let mut raw = owlchess::RawBoard::empty();
+                let side = if rng.gen_bool(0.5) { owlchess::Color::White } else { owlchess::Color::Black };
+                let mut sq: Vec<usize> = (0..64).collect();
+                rand::seq::SliceRandom::shuffle(&mut sq[..], rng);
+                raw.cells[sq[0]] = owlchess::Cell::from_parts(side, owlchess::Piece::King);
+                raw.cells[sq[1]] = owlchess::Cell::from_parts(side.inv(), owlchess::Piece::King);
+                let men = rng.gen_range(17..31);
+                for s in sq.iter().skip(2).take(men) {
+                    raw.cells[*s] = owlchess::Cell::from_parts(side, if rng.gen_bool(0.8) { owlchess::Piece::Queen } else { owlchess::Piece::Rook });
+                }
+                raw.side = side;
+                sink.begin(&json!({"prop": prop, "rawfen": raw.as_fen()}));
+                if let Ok(Ok(b)) = std::panic::catch_unwind(|| owlchess::Board::try_from(raw)) {
+                    sink.emit(&misc::cap_event(&b));
+                }
+            }
             // maximal-mobility search: climb from corpus maximisers and from all-queen placements
             let iters: usize = std::env::var("HARNESS_CLIMB").ok().and_then(|s| s.parse().ok()).unwrap_or(3000);
             let mut starts: Vec<owlchess::Board> = pos.iter().take(6).cloned().collect();
